@@ -62,7 +62,16 @@ const PAIRS: &[(&str, &str, f64, f64, f64, f64)] = &[
     ("tanh", "atanh", -7.0, 7.0, -0.999999, 0.999999),
     ("exp", "ln", -700.0, 700.0, 1.0e-300, 1.0e300),
     ("exp", "log", -700.0, 700.0, 1.0e-300, 1.0e300),
+    // math::trigonometry_extra (defined in numbat itself); judged with a relative tolerance (N_CORE_PAIRS..)
+    ("cot", "acot", -1.5697, 1.5697, -1.0e9, 1.0e9),
+    ("coth", "acoth", -5.0, 5.0, 1.000001, 1.0e9),
+    ("coth", "acoth", -5.0, 5.0, -1.0e9, -1.000001),
+    ("secant", "arcsecant", 0.01, 3.13, 1.000001, 1.0e4),
+    ("csc", "acsc", -1.5697, 1.5697, 1.000001, 1.0e9),
+    ("sech", "asech", 0.01, 5.0, 1.0e-9, 0.999999),
+    ("csch", "acsch", -5.0, 5.0, -1.0e9, 1.0e9),
 ];
+const N_CORE_PAIRS: usize = 8;
 
 // ---------------------------------------------------------------- evaluation
 
@@ -357,7 +366,18 @@ fn gen_case(rng: &mut Rng, env: &Env, out: &mut Out) -> Case {
         out.count(&format!("kind:fn:{}:{}", PAIRS[p].0, if dir == 0 { "inv(f(x))" } else { "f(inv(y))" }));
         let (_, _, xlo, xhi, ylo, yhi) = PAIRS[p];
         let (lo, hi) = if dir == 0 { (xlo, xhi) } else { (ylo, yhi) };
-        let x = if hi > 1e100 || lo.abs() > 1e100 {
+        let x = if p >= N_CORE_PAIRS && dir == 1 {
+            // log-uniform magnitude over the range of y, either sign where the range allows; two-sided ranges start at
+            // 1e-4 and `secant` ends at 1e4: beyond, `acot`/`arcsecant` are within 1e-9 of pi/2 and the round trip is
+            // ill-conditioned by itself
+            let (alo, ahi) = if lo < 0.0 && hi > 0.0 { (1.0e-4, hi) } else if lo < 0.0 { (-hi, -lo) } else { (lo, hi) };
+            let m = 10f64.powf(alo.log10() + rng.unit_f64() * (ahi.log10() - alo.log10())).clamp(alo, ahi);
+            if (lo < 0.0 && hi > 0.0 && rng.chance(1, 2)) || hi < 0.0 { -m } else { m }
+        } else if p >= N_CORE_PAIRS && rng.chance(1, 3) {
+            // small arguments of either sign
+            let m = 10f64.powf(-4.0 + rng.unit_f64() * 3.5).min(hi);
+            if lo < 0.0 && rng.chance(1, 2) { -m } else { m.max(lo) }
+        } else if hi > 1e100 || lo.abs() > 1e100 {
             // log-uniform magnitude for the unbounded domains
             let lo_e = if lo > 0.0 { lo.log10() } else { -300.0 };
             let m = 10f64.powf(lo_e + rng.unit_f64() * (hi.log10().min(300.0) - lo_e));
@@ -434,16 +454,29 @@ fn run_case(imp: &mut Impl, env: &Env, c: &Case) -> CaseResult {
                 }
             };
             let xv = f64::from_bits(xb);
+            // a temperature handed to °C / °F need not be written in kelvin: every fourth case writes it in mK, kK or µK
+            // (chosen by the literal's bits, so that a replayed case is the same case)
+            let (tu, tscale): (&str, f64) = match (kind.as_str(), xb % 8) {
+                ("k2c" | "k2f", 1) => ("mK", 1e-3),
+                ("k2c" | "k2f", 3) => ("kK", 1e3),
+                ("k2c" | "k2f", 5) => ("µK", 1e-6),
+                _ => ("K", 1.0),
+            };
             let (fwd, back, req, func_f, func_b): (String, String, &str, &str, &str) = match kind.as_str() {
                 "c2k" => (format!("from_celsius({})", x), format!("°C(from_celsius({}))", x), "fc", "from_celsius", "°C"),
-                "k2c" => (format!("°C({} K)", x), format!("from_celsius(°C({} K))", x), "tc", "°C", "from_celsius"),
+                "k2c" => (format!("°C({} {})", x, tu), format!("from_celsius(°C({} {}))", x, tu), "tc", "°C", "from_celsius"),
                 "f2k" => (format!("from_fahrenheit({})", x), format!("°F(from_fahrenheit({}))", x), "ff", "from_fahrenheit", "°F"),
-                _ => (format!("°F({} K)", x), format!("from_fahrenheit(°F({} K))", x), "tf", "°F", "from_fahrenheit"),
+                _ => (format!("°F({} {})", x, tu), format!("from_fahrenheit(°F({} {}))", x, tu), "tf", "°F", "from_fahrenheit"),
             };
             let rf = imp.eval(&fwd);
-            r.lines.push((format!("{} {:016x}", req, xb), rf.wire()));
+            if tu == "K" {
+                r.lines.push((format!("{} {:016x}", req, xb), rf.wire()));
+            } else {
+                r.buckets.push(format!("temp:{}:written-in-{}", kind, tu));
+            }
             let rb = imp.eval(&back);
-            let tol = 8.0 * EPS * (xv.abs() + 460.0);
+            let xv = xv * tscale;
+            let tol = 8.0 * EPS * (xv.abs() + 460.0) + 4.0 * EPS * xv.abs();
             match rb.base() {
                 Some(v) if (v - xv).abs() <= tol => r.buckets.push(format!("temp:{}:ok", kind)),
                 _ => r.fails.push((format!("C23:temp:{}", kind), format!("{}({}({})) = {} but the input is {:e} (tolerance {:e})", func_b, func_f, x, rb.wire_value(), xv, tol))),
@@ -452,8 +485,8 @@ fn run_case(imp: &mut Impl, env: &Env, c: &Case) -> CaseResult {
             let (syn, alias) = match kind.as_str() {
                 "c2k" => (format!("{} °C -> °C", x), format!("celsius(from_celsius({}))", x)),
                 "f2k" => (format!("{} °F -> °F", x), format!("fahrenheit(from_fahrenheit({}))", x)),
-                "k2c" => (format!("({} K -> °C) °C", x), format!("from_celsius(degree_celsius({} K))", x)),
-                _ => (format!("({} K -> °F) °F", x), format!("from_fahrenheit(degree_fahrenheit({} K))", x)),
+                "k2c" => (format!("({} {} -> °C) °C", x, tu), format!("from_celsius(degree_celsius({} {}))", x, tu)),
+                _ => (format!("({} {} -> °F) °F", x, tu), format!("from_fahrenheit(degree_fahrenheit({} {}))", x, tu)),
             };
             for e in [syn, alias] {
                 let rs = imp.eval(&e);
@@ -580,7 +613,7 @@ fn run_case(imp: &mut Impl, env: &Env, c: &Case) -> CaseResult {
                 }
             };
             let e = if *dir == 0 { format!("{}({}({}))", g, f, x) } else { format!("{}({}({}))", f, g, x) };
-            let tol = 1e-9 * xv.abs().max(1.0);
+            let tol = if *p % PAIRS.len() >= N_CORE_PAIRS { 1e-9 * xv.abs() } else { 1e-9 * xv.abs().max(1.0) };
             match imp.eval(&e).base() {
                 Some(v) if (v - xv).abs() <= tol => r.buckets.push("fn:ok".into()),
                 other => r.fails.push((format!("C23:fn:{}:{}", f, dir), format!("{} = {:?} but the argument is {:e} (tolerance {:e})", e, other, xv, tol))),
